@@ -11,7 +11,7 @@ MANIFEST = {
     "technique": "function contracts with a ghost sample trace, floating-point SMT obligations, relational (two-state) routing lemma, ranking-function lemma; z3",
     "design_ref": "DESIGN.md section 4 C20",
 }
-KEEP = keep_labels({"ticks", "sample", "ok", "silent", "pair"})
+KEEP = keep_labels({"ticks", "sample", "ok", "silent", "pair", "ch1", "ch2", "ch3", "ch4", "sequencer", "len2", "len3"})
 
 
 def tasks(ctx):
@@ -20,6 +20,7 @@ def tasks(ctx):
     ts = [Task(ac.A + "tickClock[outputs]", ac.A + "tickClock", variant="outputs", overrides=both, keep=KEEP),
           Task(ac.A + "tickClock[no-outputs]", ac.A + "tickClock", variant="no-outputs", overrides=ac.OV, keep=KEEP),
           Task(ac.A + "tickClock[left-only]", ac.A + "tickClock", variant="left-only", overrides=onlyl, keep=KEEP),
+          Task(ac.A + "tickTimer", ac.A + "tickTimer", overrides=ac.OV, keep=KEEP),
           Task(ac.A + "takeSample[outputs]", ac.A + "takeSample", variant="outputs", overrides=both, keep=KEEP),
           Task(ac.A + "takeSample[no-outputs]", ac.A + "takeSample", variant="no-outputs", overrides=ac.OV, keep=KEEP),
           LemmaTask("lemma:mix", ac.mix_lemmas, [ac.A + "takeSample", "(*audio.square).takeSample", "(*audio.wave).takeSample", "(*audio.noise).takeSample"]),
